@@ -105,9 +105,11 @@ def npitch(note):
 class TunView(object):
     """What the reference side knows about a tuning: member pitches per string."""
 
-    def __init__(self, tkey):
+    def __init__(self, tkey, lib=None):
         self.tkey = list(tkey) if tkey is not None else None
-        if tkey is None:
+        if lib is not None:
+            self.lib = lib                  # a tuning object of the caller's own (tkey is then only a cache label)
+        elif tkey is None:
             self.lib = None
             lib = REG_BY_KEY[("GUITAR", "STANDARD TUNING")]
         else:
@@ -740,6 +742,51 @@ def decode(S, site, text, read_entries=True):
 
 
 # ---------------------------------------------------------------------------------------
+# clause: tab_same_name -- two tuning objects that carry the same instrument and description
+# ---------------------------------------------------------------------------------------
+SAME_NAME_TUNINGS = [
+    ["E-2", "A-2", "D-3", "G-3"],
+    ["G-3", "C-4", "E-4", "A-4", "D-5", "G-5"],
+    ["C-3", "G-3", "D-4", "A-4", "E-5"],
+    ["E-2", "A-2", "D-3", "G-3", "B-3", "E-4", "A-4"],
+]
+
+
+def run_tab_same_name(case):
+    """case = [i, j, name]: tablature is rendered for tuning i, then for tuning j; both objects were created with the
+    same instrument name and description (as the library's own docstrings do: StringTuning('test', 'test', ...))."""
+    S = engine.S
+    i, j, name = case
+    for step, k in enumerate((i, j)):
+        obj = tunings.StringTuning(name, name, list(SAME_NAME_TUNINGS[k]))
+        tv = TunView(["<own tuning %s>" % name, "%d:%d:%d" % (i, j, step)], lib=obj)
+        op = tv.opens()
+        for s in range(tv.n):
+            for fret in (0, 5):
+                p = op[s] + fret
+                z, _ = zone_cached(tv, [p])
+                site = "from_Note(%s, tuning=StringTuning(%r, %r, %r))%s" % (
+                    mkstr(p), name, name, SAME_NAME_TUNINGS[k], "" if step == 0 else " after rendering for StringTuning(%r, %r, %r)" % (name, name, SAME_NAME_TUNINGS[i]))
+                text = render(S, site, tablature.from_Note, [mknote(p)], _kw(tv, "width", 60), z == "none", z == "between", True)
+                if text is None:
+                    continue
+                systems = decode(S, site, text)
+                if systems is None:
+                    continue
+                if len(systems) != 1 or not check_systems(S, site, systems, tv):
+                    if len(systems) != 1:
+                        S.problem(site, "one system", len(systems))
+                    continue
+                got = RT.entries(systems[0])
+                if got != [[p]]:
+                    S.problem(site, [[p]], got, detail=text.split("\n"), tags={"kind": "decode"})
+                S.count("tab_entries_decoded")
+                S.trans(1)
+    S.count("same_name_tuning_pairs")
+    S.outcome((i, j))
+
+
+# ---------------------------------------------------------------------------------------
 # clauses: tab_note, tab_container
 # ---------------------------------------------------------------------------------------
 def run_tab_note(case):
@@ -1329,6 +1376,7 @@ CLAUSES = {
     "tab_container": run_tab_container,
     "tab_attr": run_tab_attr,
     "tab_rerender": run_tab_rerender,
+    "tab_same_name": run_tab_same_name,
     "tab_bar": run_tab_bar,
     "tab_track": run_tab_track,
     "tab_composition": run_tab_composition,
@@ -1415,6 +1463,10 @@ def explore(ctx):
         ctx.product("tab_note", [(i, tier) for i in range(ntab)], gen_tab_note)
     if ctx.want("tab_container"):
         ctx.product("tab_container", [(i, tier) for i in range(ntab)], gen_tab_container)
+    if ctx.want("tab_same_name"):
+        n = len(SAME_NAME_TUNINGS)
+        ctx.bound("tab_same_name", {"tunings": SAME_NAME_TUNINGS, "names": ["test", "Guitar"], "ordered pairs": n * n})
+        ctx.product("tab_same_name", ["test", "Guitar"], lambda nm: ([i, j, nm] for i in range(n) for j in range(n)))
     if ctx.want("tab_rerender"):
         ctx.product("tab_rerender", ctx.pick(DEEP_Q[:3], DEEP_Q + DEEP_T), gen_tab_rerender)
         if not ctx.only:
